@@ -198,7 +198,7 @@ def run_parallel(cmds, timeout, width=None):
 
 # suites whose cases leave sockets and threads behind in the harness process (in-process servers never end):
 # few cases per process, so that the ephemeral port range is never exhausted
-SOCKET_SUITES = {"srv": 150, "conc": 60, "cli": 150, "bin": 100}
+SOCKET_SUITES = {"srv": 150, "srv-rt": 1, "conc": 60, "cli": 150, "bin": 100}
 
 def merge(paths_idx, suffix_from, suffix_to, total):
     res = [""] * total
